@@ -26,7 +26,7 @@ func init() {
 			"(c) every sorted dictionary up to the size bound x every split into consecutive blocks -> real token.Table.SelectEntries(field, hint) -> ordered provider over the selected entries -> pattern.Search must equal the scan of all tokens; " +
 			"(d) seeded long strings and large dictionaries. case = one pattern/range (a,b) or one dictionary with all its splits and patterns (c); non-trivial = matches some but not all tokens; distinct = case identity",
 		Assumptions: []string{"the ordered provider used in (c) serves tokens straight from the dictionary; the block-loading provider of sealed fractions is exercised end-to-end by C03 (multi-block dictionaries)"},
-		Batches:     tiered(8, 32),
+		Batches:     tiered(16, 64),
 		Run:         runC13,
 		Exhaustive:  func(string) bool { return true },
 		Timeout:     timeoutFor(8*time.Minute, 45*time.Minute),
@@ -107,13 +107,10 @@ func searchTIDs(tok parser.Token, p *sliceProvider) (map[uint32]bool, error) {
 }
 
 func runC13(w *h.W, batch int) {
-	nb := 8
-	if !w.Quick() {
-		nb = 32
-	}
+	nb := nbOf("C13", w.Tier)
 	r := w.Rng()
 	// ---------- (a) patterns x tokens
-	maxLen := 4
+	maxLen := 5
 	if !w.Quick() {
 		maxLen = 6
 	}
@@ -219,9 +216,9 @@ func runC13(w *h.W, batch int) {
 		}
 	}
 	// ---------- (c) dictionaries x block splits x patterns through the real SelectEntries
-	dictAlphaLen, dictMax, patLen := 2, 5, 3
+	dictAlphaLen, dictMax, patLen := 3, 4, 3
 	if !w.Quick() {
-		dictAlphaLen, dictMax, patLen = 3, 5, 4
+		dictAlphaLen, dictMax, patLen = 3, 6, 4
 	}
 	universe := allStrings("ab", dictAlphaLen)
 	sort.Strings(universe)
